@@ -180,6 +180,13 @@ def roundtrip_dump_table(tier, seed):
             stext = s.dump('atom_dump', lammps_units=units, float_format='%.13e', **kw)
             sback = am.load('atom_dump', stext, symbols=s.symbols, lammps_units=units, **kw)
             msgs += ['scaled dump columns: ' + m for m in F.same_system(am, s, sback, 1e-9 * 50, props=[])]
+            # positions stored box-scaled (unit 'scaled'), read back with the column-conversion table the WRITER returns
+            for fmt_, extra_w, extra_r in (('atom_dump', dict(lammps_units=units), dict(symbols=s.symbols, lammps_units=units)), ('table', {}, dict(box=s.box, symbols=s.symbols))):
+                pin = ([{'prop_name': 'atom_id', 'table_name': ['id']}] if fmt_ == 'atom_dump' else []) + [{'prop_name': 'atype', 'table_name': ['type']},
+                                                                                                         {'prop_name': 'pos', 'table_name': ['xs', 'ys', 'zs'], 'unit': 'scaled'}]
+                wtext, winfo = s.dump(fmt_, prop_info=pin, float_format='%.13e', return_prop_info=True, **extra_w)
+                wback = am.load(fmt_, wtext, prop_info=winfo, **extra_r)
+                msgs += ["%s, positions stored with unit 'scaled', read with the writer's returned column table: %s" % (fmt_, m) for m in F.same_system(am, s, wback, 1e-9 * 50, props=[], check_pbc=(fmt_ != 'table'))]
         except Exception as e:
             msgs.append('raised %s: %s' % (type(e).__name__, e))
         if msgs:
